@@ -1,6 +1,6 @@
 (* C15 — shape of the generated cases and the two executable verdicts. No proofs. *)
 From VLib Require Import CaseLib.
-From C15 Require Import Model Reach ModelPar ModelPL ModelUse.
+From C15 Require Import Model Reach ModelPar ModelPL ModelUse ModelProxy.
 
 Definition kind_eqb (a b : kind) : bool :=
   match a, b with
@@ -87,6 +87,20 @@ Record fracobs := mkobs { o_listed : lkind; o_expected : N; o_ok : N; o_wrong : 
 
 Record cinfo := mkcinfo { ci_entry : option info; ci_hdr : info; ci_impl : info }.
 
+(* a step of the driver = the model events the real goroutines perform until everything is parked or blocked again.
+   All pass goroutines together delete in FIFO order (a pass goroutine handles its outsiders one after another and waits
+   for the previous pass): ss_q = outsiders whose Suicide() has not gone on yet. *)
+Inductive sstep :=
+| SRotate                  (* fm.rotate() *)
+| SSealEnter (i : nat)     (* `go fm.seal(ref_i)` up to the schedule point seal.readonly (or its return / the death of the process) *)
+| SSealSwap (i : nat)      (* ... up to seal.swapped; a Suicide waiting for the seal goes on *)
+| SSealInstall (i : nat)   (* ... until fm.seal returns *)
+| SPass (k : nat)          (* a retention pass that pushes out k fractions *)
+| SStop.                   (* FracManager.Stop() with seal-on-exit of the current fraction *)
+
+Record pobs := mkpobs { po_alive : bool; po_fr : list (bool * px) }.
+Record pfin := mkpfin { pn_pushed : bool; pn_expected : N; pn_ok : N; pn_wrong : N; pn_files : list kind; pn_listed : lkind }.
+
 Inductive case :=
 (* window of the trace: operations on one fraction during one life-cycle step *)
 | COps (ev : event) (sorted hasdata doomed : bool) (before : list kind) (impl : list xop)
@@ -128,7 +142,12 @@ Inductive case :=
 | CSaveOps (ops : list sop)
 (* readers against the deletion of the oldest fraction: actions of the driver, per action whether the
    reader got a real provider and the files of the fraction afterwards *)
-| CUse (active : bool) (files0 : list kind) (acts : list uact) (obs : list (bool * list kind)).
+| CUse (active : bool) (files0 : list kind) (acts : list uact) (obs : list (bool * list kind))
+(* rotation, seal goroutines, retention passes and Stop's seal-on-exit on the real FracManager, one scripted step after
+   another (script_step below): nsealed = sealed fractions loaded at start (then one active fraction); obs = after
+   every step whether the process is alive and per fraction (listed, fields of its proxy); fin = per fraction after the
+   script and a restart (empty when the process died) *)
+| CProxy (nsealed : nat) (script : list sstep) (obs : list pobs) (fin : list pfin).
 
 Definition broken (sorted : bool) (f : fracst) : bool :=
   negb (served_ok sorted (fs_of (st_files f))) && st_hasdata f.
@@ -279,6 +298,77 @@ Fixpoint use_ok (f0 : fs) (prev : fs) (c : nat) (called : bool) (acts : list uac
   | _, _ => false
   end.
 
+
+(* ---------------------------------------------------------------- proxyFrac: scripted interleavings *)
+
+Record sst := mks { ss_p : pstate; ss_q : list nat }.
+
+Fixpoint push_pos (k i : nat) (l : list pfrac) : list nat :=
+  match l with
+  | [] => []
+  | f :: r =>
+      match k_listed f, k with
+      | true, S k' => i :: push_pos k' (S i) r
+      | _, _ => push_pos k (S i) r
+      end
+  end.
+
+Fixpoint drain (fuel : nat) (p : pstate) (q : list nat) : pstate * list nat :=
+  match fuel, q with
+  | S f, h :: r =>
+      let p' := pstep false p (PSuicide h) in
+      match nth_error (p_fr p') h with
+      | Some pf => match xf_k pf with KWaiting => (p', q) | _ => drain f p' r end
+      | None => drain f p' r
+      end
+  | _, _ => (p, q)
+  end.
+
+Definition script_step (s : sst) (e : sstep) : sst :=
+  let p := ss_p s in
+  match e with
+  | SRotate => mks (pstep false p PRotate) (ss_q s)
+  | SSealEnter i => mks (fold_left (pstep false) [PSealGo i; PSealEnter i] p) (ss_q s)
+  | SSealSwap i => let '(p', q') := drain (S (length (ss_q s))) (pstep false p (PSealSwap i)) (ss_q s) in mks p' q'
+  | SSealInstall i => mks (pstep false p (PSealInstall i)) (ss_q s)
+  | SPass k =>
+      let q := ss_q s ++ push_pos k 0 (p_fr p) in
+      let '(p', q') := drain (S (length q)) (pstep false p (PPass k)) q in mks p' q'
+  | SStop =>
+      let c := pred (length (p_fr p)) in
+      mks (fold_left (pstep false) [PSealGo c; PSealEnter c; PSealSwap c; PSealInstall c] p) (ss_q s)
+  end.
+
+Definition obs_of (s : sst) : pobs :=
+  mkpobs (negb (p_fatal (ss_p s))) (map (fun f => (k_listed f, xf_x f)) (p_fr (ss_p s))).
+
+Fixpoint script_obs (s : sst) (l : list sstep) : list pobs :=
+  match l with
+  | [] => []
+  | e :: r => let s' := script_step s e in obs_of s' :: script_obs s' r
+  end.
+
+Definition script_init (nsealed : nat) : sst := mks (mkp (repeat pf_loaded_sealed nsealed ++ [pf_new]) false) [].
+Definition script_final (nsealed : nat) (l : list sstep) : sst := fold_left script_step l (script_init nsealed).
+
+Definition pobs_eqb (a b : pobs) : bool :=
+  Bool.eqb (po_alive a) (po_alive b) &&
+  (negb (po_alive a) ||     (* a dead process has no fields to look at *)
+   list_eqb (fun x y => Bool.eqb (fst x) (fst y) && px_eqb (snd x) (snd y)) (po_fr a) (po_fr b)).
+
+Fixpoint fin_agree (m : list pfrac) (fin : list pfin) : bool :=
+  match m, fin with
+  | [], [] => true
+  | f :: mr, n :: nr => Bool.eqb (negb (k_listed f)) (pn_pushed n) && Bool.eqb (pf_deleted f) (pn_pushed n) && fin_agree mr nr
+  | _, _ => false
+  end.
+
+(* completely served or completely gone *)
+Definition pfin_ok (n : pfin) : bool :=
+  if pn_pushed n
+  then N.eqb (pn_ok n) 0 && N.eqb (pn_wrong n) 0 && match pn_files n with [] => true | _ => false end && lkind_none (pn_listed n)
+  else N.eqb (pn_ok n) (pn_expected n) && N.eqb (pn_wrong n) 0 && (N.eqb (pn_expected n) 0 || negb (lkind_none (pn_listed n))).
+
 Definition nat_list_eqb := list_eqb Nat.eqb.
 
 Definition case_agrees (c : case) : bool :=
@@ -343,6 +433,12 @@ Definition case_agrees (c : case) : bool :=
   | CUse active files0 acts obs =>
       let prog := if active then active_suicide_prog else sealed_suicide_prog in
       uobs_eqb (uobs prog (fs_of files0) (u_init (fs_of files0)) acts) obs
+  | CProxy nsealed script obs fin =>
+      list_eqb pobs_eqb (script_obs (script_init nsealed) script) obs
+      && match fin with
+         | [] => p_fatal (ss_p (script_final nsealed script))
+         | _ => fin_agree (p_fr (ss_p (script_final nsealed script))) fin
+         end
   end.
 
 Definition case_spec_ok (c : case) : bool :=
@@ -384,6 +480,9 @@ Definition case_spec_ok (c : case) : bool :=
       forallb (fun c => info_eqb (ci_hdr c) (ci_impl c)) l && N.eqb ok expected && N.eqb wrong 0
   | CSaveOps ops => write_before_rename ops false
   | CUse active files0 acts obs => use_ok (fs_of files0) (fs_of files0) 0 false acts obs
+  | CProxy nsealed script obs fin =>
+      (* the store survives every step; afterwards every fraction is completely served or completely gone *)
+      forallb po_alive obs && match fin with [] => false | _ => forallb pfin_ok fin end
   end.
 
 Definition diff_indices (l : list case) : list nat := bad_indices (fun c => negb (case_agrees c)) l.
